@@ -91,6 +91,23 @@ theorem returns_builds_default (v : Nat) (vs : List Nat) :
   obtain ⟨q1, q2, q3⟩ := one (createWhen none (some v)) rfl rfl rfl rfl
   exact ⟨p1, p2, p3, q1, q2, q3⟩
 
+/-- mocker.go `Returns` on a mocker without a `When` (all mocker kinds; targets with results): the call installs a `When` exactly
+    when it carries values.  A first `Returns()` with no values is rejected (`*erro.ReturnsNotMatch`) and leaves the mocker
+    untouched — it can no longer be used to obtain a bare, result-less `When` whose calls would panic —, so every later
+    operation sees the same state as if the call had not been made; with values the default is built as in
+    `returns_builds_default`. -/
+theorem first_returns_installs_iff_values (vs : List Nat) (ops : List Op) :
+    ((opStep none (.mRets vs)).1 = none ↔ vs = []) ∧
+    runOps none (.mRets [] :: ops) = .rejected :: runOps none ops ∧
+    endState none (.mRets [] :: ops) = endState none ops := by
+  refine ⟨?_, rfl, rfl⟩
+  cases vs with
+  | nil => exact ⟨fun _ => rfl, fun _ => rfl⟩
+  | cons v vs => exact ⟨fun h => by simp [opStep] at h, fun h => by cases h⟩
+
+example : runOps none [.mRets [], .call 3, .mRets [7, 8], .call 3, .call 3, .wRets [], .call 3] =
+    [.rejected, .orig, .val 7, .val 8, .val 8] := by decide
+
 /-- when.go:171 `Matches(Pair{a₁,v₁}, …)`: every pair becomes its own one-element stub at the end of the match order, and every
     stub that existed before — its sequence and its cursor —, the default and the current condition are untouched.
     (False for the source as it stood before fix F14: `Matches` first called `w.Return(v)` for every pair, which appended
